@@ -119,9 +119,8 @@ func isMapsCopy(call *ssa.CallCommon) bool {
 	return cal.Name() == "Copy" && cal.Pkg != nil && cal.Pkg.Pkg.Path() == "maps"
 }
 
-func init() {
-	extendProp("C13", "Every account finalisation marks as deleted is also recorded as destructed: in Finalise and finaliseAmsterdam each markDelete is, on every path to the end of the iteration, paired with the store into stateObjectsDestruct (or the test that an earlier record exists), so commit wipes the account's storage and code.", nil, func(c *Ctx) {
-		c.Rule("PAIR/C13.destructrecord")
+func destructRecorded(c *Ctx, rule string) {
+		c.Rule(rule)
 		cst := "core/state"
 		n := 0
 		for _, fn := range []string{"(*StateDB).Finalise", "(*StateDB).finaliseAmsterdam"} {
@@ -162,7 +161,12 @@ func init() {
 			}
 		}
 		c.Expect(3, n, "markDelete sites in Finalise/finaliseAmsterdam")
-	})
+}
+
+func init() {
+	decC13 := "Every account finalisation marks as deleted is also recorded as destructed: in Finalise and finaliseAmsterdam each markDelete is, on every path to the end of the iteration, paired with the store into stateObjectsDestruct (or the test that an earlier record exists), so commit wipes the account's storage and code and a later access in the block does not reload the stale account."
+	extendProp("C13", decC13, nil, func(c *Ctx) { destructRecorded(c, "PAIR/C13.destructrecord") })
+	extendProp("C32", decC13, []string{"core/state"}, func(c *Ctx) { destructRecorded(c, "PAIR/C32.destructrecord") })
 
 	extendProp("C14", "A failing storage-trie write aborts the commit: updateRoot has no error result, so every error return of stateObject.updateTrie lies behind StateDB.setError — the only thing commit tests after IntermediateRoot.", nil, func(c *Ctx) {
 		c.Rule("DOM/C14.seterror")
